@@ -75,7 +75,23 @@ impl<F: TryFuture> Future for TryJoinAll<F> {
                 Poll::Ready(Some((i, Ok(t)))) => {
                     self.output[i].write(t);
                 }
-                Poll::Ready(Some((_, Err(e)))) => {
+                Poll::Ready(Some((failed, Err(e)))) => {
+                    // We are done. Drop the outputs collected so far and cancel the futures that
+                    // are still running, so that nothing is leaked and a later poll can never
+                    // observe the (never written) slot of the failed future.
+                    let this = &mut *self;
+                    let mut output =
+                        core::mem::replace(&mut this.output, Vec::new().into_boxed_slice());
+                    for (i, slot) in output.iter_mut().enumerate() {
+                        if i != failed && this.queue.tasks.get(i).is_none() {
+                            // SAFETY: the future of slot `i` has completed with `Ok` and has been
+                            // removed from the queue, hence its output was written.
+                            unsafe { slot.assume_init_drop() };
+                        }
+                    }
+                    for i in 0..this.queue.capacity() {
+                        this.queue.tasks.remove(i);
+                    }
                     break Poll::Ready(Err(e));
                 }
                 Poll::Ready(None) => {
